@@ -32,7 +32,7 @@ structure CrashStats where
 def applyReq (b : ByteArray) (r : Crash.Req) : ByteArray := Crash.apply b r
 
 partial def runCrash (dir : String) (lines : Array String) (log : Array String) (thorough : Bool)
-    (out : IO.FS.Stream) : IO Unit := do
+    (out : IO.FS.Stream) (focusHdr : Bool := false) : IO Unit := do
   -- index the log by case
   let mut caseLog : Std.HashMap Nat (Array String) := {}
   let mut cur : Array String := #[]
@@ -69,6 +69,16 @@ partial def runCrash (dir : String) (lines : Array String) (log : Array String) 
       | some b => fun s => if (s + 1) * 512 ≤ b.vsize then b.sec s else 0
       | none => fun _ => 0
     let reqLines := caseLog.getD h.id #[]
+    -- `focusHdr` (big images, C12): every crash point inside operations that rewrite the
+    -- header (table relocation) and their neighbours, a sparse sample of the others
+    let hdrReqs : List Nat := if !focusHdr then [] else
+      reqLines.toList.zipIdx.filterMap (fun (l, ix) => match l.splitOn " " with
+        | "W" :: _ :: off :: _ => if off == "0" then some ix else none
+        | _ => none)
+    -- (the window covers the whole relocation: write-back of dirty refblocks, new refblock,
+    -- new table, syncs, header, and the release of the old table afterwards)
+    let inFocus := fun (_k rix : Nat) =>
+      !focusHdr || hdrReqs.any (fun o => o ≤ rix + 48 ∧ rix ≤ o + 24) || rix % 211 == 0
     let mut durable := img0
     -- token of every host sector of the durable file
     let mut durTok : Array (Option Nat) := (Array.range ((img0.size + 511) / 512)).map (fun hs => sectorTok img0 (hs * 512))
@@ -122,6 +132,7 @@ partial def runCrash (dir : String) (lines : Array String) (log : Array String) 
         match t with
         | "S" :: _ => pure ()
         | _ =>
+          if !inFocus k rix then continue
           -- crash point right after this request was issued
           stats := { stats with points := stats.points + 1, maxPending := max stats.maxPending pending.size }
           let bs := 2^h.bsb
